@@ -153,7 +153,7 @@ def e3_search(part, label, spec, wfin, judge, *, bound=None, max_execs=3000, sub
     log = root / "log"
     mk = make or (lambda: make_task(spec, wfin))
 
-    def run_one(prefix):
+    def run_one(prefix, _retry=False):
         d = Path(tempfile.mkdtemp(dir=root))
         try:
             tasks.reset_log(log)
@@ -163,13 +163,19 @@ def e3_search(part, label, spec, wfin, judge, *, bound=None, max_execs=3000, sub
             try:
                 o = with_watchdog(lambda: E.run_execution(mk, d, prefix, state_fn=E.default_state, faults=faults,
                                                           pair_deliver=pair_deliver, horizon_vt=horizon_vt,
-                                                          submitter_kwargs=submitter_kwargs, monitors=monitors), watchdog)
+                                                          submitter_kwargs=submitter_kwargs, monitors=monitors),
+                                  watchdog * (4 if _retry else 1))
             except Hang:
                 o = E.Outcome()
                 o.kind = "hang"
                 o.explorer = None
             if WATCHDOG["fired"]:
                 o.kind = "hang"
+            if o.kind == "hang" and not _retry:
+                # a busy machine can make a healthy run miss the watchdog: a hang only counts if it reproduces
+                # with four times the budget
+                shutil.rmtree(d, ignore_errors=True)
+                return run_one(prefix, _retry=True)
             o.log = [canon(r) for r in log_records(tasks.read_log())]
             o.cache = d
             if o.kind != "hang":
